@@ -64,6 +64,7 @@ def variants(case, vocab, rot, allow_ph):
         out.append(("reorder-" + name, hedgen.render(case, vocab, rot, allow_ph=allow_ph, style=0, perm=f)[0]))
     out.append(("mixedcase", hedgen.render(case, vocab, rot, allow_ph=allow_ph, style=0, casing=3)[0]))
     out.append(("mixedupper", hedgen.render(case, vocab, rot, allow_ph=allow_ph, style=0, casing=4)[0]))
+    out.append(("respelled-upper-alternate", hedgen.render(case, vocab, rot, allow_ph=allow_ph, style=0, casing=5)[0]))
     if not case.get("dup"):      # member order differing from group to group (two written-alike groups no longer are)
         for k in range(2):
             out.append(("reorder-shuffle%d" % k, hedgen.render(case, vocab, rot, allow_ph=allow_ph, style=0, perm=_shuffler(rot + k))[0]))
